@@ -5,6 +5,7 @@ from oslo_config import cfg
 from oslo_policy import _parser, opts, policy
 
 logging.disable(logging.CRITICAL)
+logging.getLogger().addHandler(logging.NullHandler())   # never fall back to stderr
 
 DISALLOWED = ' is disallowed by policy'
 
